@@ -1,5 +1,6 @@
 import NimaVerif.Lemmas.Trivia
 import NimaVerif.Lemmas.FragNFParse
+import NimaVerif.Lemmas.FragFlat
 /-!
 # C02 — canonical (RFC-0166-formatted) text is reproduced byte for byte (trivia algebra)
 
@@ -151,9 +152,9 @@ def reproduced (f : File) : Bool := decide (f.roundtrip = .ok f.flatten)
     and an indentation run, `;` attached, at most one blank line at the end (under the exclusion of
     `C18.frag_spacing_nf`). -/
 theorem frag_reproduced_is_normal_form (f : File) (s : Src) (hwf : f.wf = true) (_hws : f.noLeadingWs = true)
-    (hp : f.parse = .ok s) (hclean : s.inlineCleanB = true) (hr : reproduced f = true) :
+    (hp : f.parse = .ok s) (hclean : s.beforeFlatB = true) (hr : reproduced f = true) :
     concat s.rebuildP = f.flatten ∧ (summ s.rebuildP).fileOk = true := by
-  refine ⟨?_, file_nf f s hwf hp (src_inlineClean hclean)⟩
+  refine ⟨?_, file_nf_flat f s hwf hp hclean⟩
   have h1 : f.roundtrip = .ok f.flatten := by simpa [reproduced] using hr
   simp only [File.roundtrip, hp] at h1
   injection h1 with h1
